@@ -167,7 +167,7 @@ def main(argv):
             print(f"VIOLATION property={pid} replay={path}")
             print(f"  kind={v['kind']} {v['detail'][:400]}")
         rc = 1
-    elif out.get("inconclusive") or timeouts:
+    elif (out.get("inconclusive") or timeouts) and not a.replay:  # a replay is one case: coverage floors do not apply
         why = "; ".join(out.get("inconclusive", []) + ([f"{timeouts} shard timeouts"] if timeouts else []))
         print(f"INCONCLUSIVE property={pid} {why}")
         rc = 2
